@@ -53,7 +53,7 @@ def query_unprotected(run):
     qf = os.path.join(run.scratch, "query", "Query_globals.v")
     os.makedirs(os.path.dirname(qf), exist_ok=True)
     open(qf, "w").write("From Coq Require Import String List.\nFrom Snoopy Require Import Conc.LockSkel.\nFrom Gen Require Import Gen_Conc Gen_Globals.\n"
-                        "Eval vm_compute in (unprotected tsrm_fns globals (reachable_fns fn_refs data_refs), lock_objects globals).\n")
+                        "Eval vm_compute in (unprotected tsrm_fns globals (reachable_fns fn_refs data_refs) inlined_helpers, lock_objects globals).\n")
     p = sh(["timeout", "120", "coqc", "-q", "-Q", THEORIES, "Snoopy", "-Q", run.gen, "Gen", qf], check=False)
     return re.findall(r'"([^"]+)"%string', p.stdout) or re.findall(r'"([^"]+)"', p.stdout)
 
@@ -350,6 +350,16 @@ def check(run):
                 run.violation("stress-" + badq[0] if not badq[0].startswith("quiescence") else badq[0], badq[1], "48 threads x 2 calls, free running: " + badq[2],
                               {"failing_input": {"mode": "stress", "threads": 48, "calls": 2, "then": "lone call"}, "mode": "stress-plain", "threads": 48, "calls": 2, "ini": INI_MAIN.decode()})
                 break
+        # ---------------------------------------------------------------- free running with random pauses around the library's file operations
+        # (open / fclose / close of the log and of the configuration file): races between adjacent system calls of two threads; the log is absent at the start of every round
+        for rep in range(10 if quick else 60):
+            rj = run_mt(run, lib, "stress", 6, 3, "-", INI_MAIN, "jitter-%d" % rep, timeout=300, env={"SCHED_JITTER": str(run.seed * 1000 + rep + 1)})
+            badj = ("sched:caller-died:%s" % rj["status"], "crash", "status %s: %s" % (rj["status"], rj["stderr"][-300:])) if rj["status"] != 0 else check_records(rj, 6, 3)
+            if badj:
+                run.violation("jitter-" + badj[0], badj[1], "6 threads x 3 calls, free running with random pauses of up to 0.8 ms around open/fclose/close (log file absent at the start): " + badj[2],
+                              {"failing_input": {"mode": "stress", "threads": 6, "calls": 3, "jitter_seed": run.seed * 1000 + rep + 1}, "mode": "stress-jitter", "threads": 6, "calls": 3,
+                               "jitter": run.seed * 1000 + rep + 1, "ini": INI_MAIN.decode()})
+                break
         # ---------------------------------------------------------------- non-thread-safe build: single-threaded use only
         nts = build_prod(run, ts=False)
         ini_nts = b'[snoopy]\noutput = file:@D@/out.log\nmessage_format = "-|%{tid_kernel}|%{cmdline}|%{filename}"\n'
@@ -415,7 +425,11 @@ def check(run):
         system_level()
     except CheckError as e:
         # a tree whose proof obligations are broken may also leave the shape the harness is calibrated for: that is a verdict, not a machinery failure
-        if ok:
+        from vlib.conclevel import CalibrationMismatch
+        if isinstance(e, CalibrationMismatch):
+            run.violation("calibration:lock-sequence", "correspondence", str(e),
+                          {"failing_input": {"mode": "trace", "threads": 1, "calls": 2, "what": "lock / unlock / once sequence of two consecutive wrapped calls of one thread"}, "mode": "trace"})
+        elif ok:
             raise
         run.notes.append("system-level stage stopped on this tree: %s" % str(e)[:500])
     ops, K, meta, P, plans, nrun, tres, nstress, tsan_seen = (stats[k] for k in ("ops", "K", "meta", "P", "plans", "nrun", "tres", "nstress", "tsan_seen"))
@@ -481,6 +495,13 @@ def replay(run, path):
         for t in ts:
             print("tsan:", t)
         rc = 1 if (bad or ts) else 0
+    elif mode == "stress-jitter":
+        bad = None
+        for k in range(5):
+            r = run_mt(run, lib, "stress", rep.get("threads", 6), rep.get("calls", 3), "-", ini, "replay%d" % k, timeout=300, env={"SCHED_JITTER": str(rep.get("jitter", 1))})
+            bad = bad or check_records(r, rep.get("threads", 6), rep.get("calls", 3))
+        print("verdict (5 runs with the same pauses):", bad)
+        rc = 1 if bad else 0
     elif mode == "stress-plain":
         r = run_mt(run, lib, "stress", rep.get("threads", 48), rep.get("calls", 2), "-", ini, "replay", timeout=300)
         bad = check_records(r, rep.get("threads", 48), rep.get("calls", 2))
